@@ -17,7 +17,8 @@ fn c08_position_all_or_nothing() {
         ("fen 4k3/P6P/8/8/8/8/p6p/4K3 w - - 0 1", &["a7a8n", "h2h1n", "h7h8r"]),
         ("fen 4k3/8/8/2pP4/8/8/8/4K3 w - c6 0 2", &["d5c6", "e8d8"]),
     ];
-    let junk = ["e2e5", "a1a1", "e7e8", "zzzz", "e1g1", "a7a8", "h2h1k"];
+    let junk = ["e2e5", "a1a1", "e7e8", "zzzz", "e1g1", "a7a8", "h2h1k", "g1f", "--", "e2", "e2e4e5", "0000"];
+    for pass in 0..2 {
     for (start, moves) in games.iter() {
         // reference: play the moves one by one on a board
         let mut reference = if *start == "startpos" { BoardBuilder::construct_starting_board().build() } else { Board::from_fen(&start[4..]) };
@@ -30,6 +31,8 @@ fn c08_position_all_or_nothing() {
             }
             let line = format!("position {} moves {}", start, moves[..k].join(" "));
             let line = if k == 0 { format!("position {}", start) } else { line };
+            // second pass: a new game is announced before every position command; what was loaded before must not matter
+            if pass == 1 { cmd(&mut u, "ucinewgame").unwrap(); }
             let r = cmd(&mut u, &line);
             assert!(r.is_ok(), "C08: legal game refused: {line}: {r:?}");
             assert!(u.board == reference, "C08: after `{line}` the position differs from playing the moves one by one");
@@ -43,7 +46,8 @@ fn c08_position_all_or_nothing() {
                     let mut probe = if *start == "startpos" { BoardBuilder::construct_starting_board().build() } else { Board::from_fen(&start[4..]) };
                     let mut legal_prefix = true;
                     for m in &ms[..j] { let p = probe.find_move(m).unwrap(); probe.make_move(p); }
-                    if probe.find_move(bad).is_ok() { legal_prefix = false; }
+                    // a legal move is written with 4 or 5 characters; anything else is illegal whatever the position
+                    if (bad.len() == 4 || bad.len() == 5) && probe.find_move(bad).is_ok() { legal_prefix = false; }
                     if !legal_prefix { continue; }
                     let line2 = format!("position {} moves {}", start, ms.join(" "));
                     let r2 = cmd(&mut u, &line2);
@@ -52,5 +56,6 @@ fn c08_position_all_or_nothing() {
                 }
             }
         }
+    }
     }
 }
